@@ -368,8 +368,9 @@ def cases(tier, rng):
                 peaks.append([ci, s, rng.randrange(s + 1, sizes[ci] + 1)])
         kind = rng.choice(["pileup_hist", "pileup_sum", "mask_sum", "under", "under_mean", "merged", "pileup_data",
                            "under_stranded", "under_stranded", "under_stranded_mean",
-                           "track_ufunc_sum", "under_max", "merge_map", "bedgraph_sum", "extended", "track_bool_index"])
-        if kind in ("under", "under_mean", "under_stranded", "under_max") and not peaks:
+                           "track_ufunc_sum", "under_max", "merge_map", "bedgraph_sum", "extended", "track_bool_index",
+                           "under_sum", "under_rowsum", "under_colmean", "under_colmean"])
+        if kind in ("under", "under_mean", "under_stranded", "under_max", "under_sum", "under_rowsum", "under_colmean") and not peaks:
             peaks = [[0, 0, sizes[0]]]
         if kind == "under_stranded_mean":            # windows of one common size, as `track[windows].mean(axis=0)` needs
             w = rng.randrange(1, min(sizes) + 1)
@@ -618,7 +619,18 @@ def _pipeline(m, c, streamed):
         return [int(x) for x in np.asarray(fin(p_[p_ > 1])).ravel()]
     if kind == "under_max":
         peaks = genome.get_intervals(_interval_table(m, c["peaks"]))
-        return [int(x) for x in np.asarray(fin(np.max(gi.get_pileup()[peaks], axis=-1))).ravel()]
+        how = _vmode(c) % 2
+        r = gi.get_pileup()[peaks]
+        r = np.max(r, axis=-1) if how == 0 else r.max(axis=-1)          # function and node method
+        return [int(x) for x in np.asarray(fin(r)).ravel()]
+    if kind in ("under_sum", "under_rowsum"):
+        peaks = genome.get_intervals(_interval_table(m, c["peaks"]))
+        r = gi.get_pileup()[peaks]
+        r = (r.sum() if _vmode(c) % 2 else np.sum(r)) if kind == "under_sum" else np.sum(r, axis=-1)
+        return [int(x) for x in np.asarray(fin(r)).ravel()]
+    if kind == "under_colmean":        # windows of different sizes: mean over the rows that reach each column
+        peaks = genome.get_intervals(_interval_table(m, c["peaks"]))
+        return [_fl(x) for x in np.asarray(fin(gi.get_pileup()[peaks].mean(axis=0))).ravel()]
     if kind == "pileup_hist":
         h = np.histogram(gi.get_pileup(), bins=c["bins"], range=(0, c["bins"]))
         h = fin(h)
@@ -956,6 +968,12 @@ def oracle(c):
             return [v for v in _flat(dense) if v > 1]
         if kind == "under_max":
             return [max(dense[ci][s_:e]) for ci, s_, e in c["peaks"]]
+        if kind in ("under_sum", "under_rowsum"):          # the in-memory result: one sum per window (row)
+            return [sum(dense[ci][s_:e]) for ci, s_, e in c["peaks"]]
+        if kind == "under_colmean":
+            rows_ = [dense[ci][s_:e] for ci, s_, e in c["peaks"]]
+            w = max(len(r) for r in rows_)
+            return [_fl(Fraction(sum(r[j] for r in rows_ if len(r) > j), sum(1 for r in rows_ if len(r) > j))) for j in range(w)]
         if kind == "merge_map":
             kind = "merged"
         if kind == "pileup_hist":
